@@ -94,6 +94,16 @@ def utc_instant(rng, tb, near_midnight=None, lo=None, hi=None):
     hi = hi or tb.mjd_max - 3
     while True:
         day = rng.randint(lo, hi)
+        if rng.random() < 0.06:
+            # the clock of one of the scales reads EXACTLY midnight (or one microsecond / one second either side): the
+            # day roll-over of every label's (day, seconds) pair is hit on its boundary, not only near it
+            b = rng.choice(["UTC", "TAI", "TT", "GPS"])
+            off = round(ts.offset_from_utc(b, day - 0.001, tb), 6)
+            us = -int(round(off * 1e6)) + rng.choice([0, 0, 0, 1, -1, 10 ** 6, -10 ** 6])
+            mjd = day + us / 86400e6
+            if tb.near_leap(mjd, 125.0):
+                continue
+            return T0 + dt.timedelta(days=day, microseconds=us), mjd, True
         if near_midnight is None:
             near_midnight = rng.random() < 0.25
         if near_midnight:
